@@ -11,7 +11,7 @@ import vlib
 from vlib import prints, write_ndjson, read_ndjson, MachineryError
 
 ALL_OPS = ["ModifyExpr", "ModifyLabels", "RenameRule", "ChangeKind", "CommentOnlyEdit", "PlainCommentEdit",
-           "WhitespaceEdit", "AddRule", "DeleteRule", "SwapRules", "FileDisableEdit", "AddFile", "DeleteFile",
+           "WhitespaceEdit", "ModifyAlertFields", "AddRule", "DeleteRule", "SwapRules", "FileDisableEdit", "AddFile", "DeleteFile",
            "RenameFile", "RevertLast", "BaseAdvance"]
 
 CFG = """SPECIFICATION Spec
@@ -23,6 +23,7 @@ CONSTANTS
   Labs = {labs}
   Cmts = {cmts}
   Pads = {pads}
+  Exts = {exts}
   MaxRules = {maxrules}
   MaxForkRules = {maxfork}
   MaxCommits = {commits}
@@ -42,11 +43,11 @@ def tla_set(xs):
 
 def cfg(inv, view=False, mode="greedy", **kw):
     d = dict(npaths=1, kinds=["rec"], names=["n1", "n2"], bodies=["v1", "v2"], labs=["l1", "l2"], cmts=["none"],
-             pads=[0], maxrules=3, maxfork=2, commits=2, baseadv=0, ops=ALL_OPS, forkfdis=False, tombrename=False)
+             pads=[0], exts=["x0"], maxrules=3, maxfork=2, commits=2, baseadv=0, ops=ALL_OPS, forkfdis=False, tombrename=False)
     d.update(kw)
     return CFG.format(npaths=d["npaths"], kinds=tla_set(d["kinds"]), names=tla_set(d["names"]),
                       bodies=tla_set(d["bodies"]), labs=tla_set(d["labs"]), cmts=tla_set(d["cmts"]),
-                      pads=tla_set(d["pads"]), maxrules=d["maxrules"], maxfork=d["maxfork"], commits=d["commits"],
+                      pads=tla_set(d["pads"]), exts=tla_set(d["exts"]), maxrules=d["maxrules"], maxfork=d["maxfork"], commits=d["commits"],
                       baseadv=d["baseadv"], ops=tla_set(d["ops"]), forkfdis="TRUE" if d["forkfdis"] else "FALSE",
                       tombrename="TRUE" if d["tombrename"] else "FALSE",
                       mode=mode, inv=inv, view="VIEW MCView\n" if view else "")
@@ -135,7 +136,7 @@ def judge(ctx, tpath, trace, chunk=4000):
 
 
 def _rule(lab):
-    return {"kind": "rec", "name": "n1", "body": "v1", "lab": lab, "cmt": "none", "pad": 0}
+    return {"kind": "rec", "name": "n1", "body": "v1", "lab": lab, "cmt": "none", "pad": 0, "ext": "x0"}
 
 
 def probe_mode(ctx):
